@@ -798,6 +798,8 @@ func exec(op string) (res string) {
 	switch w[0] {
 	case "hs", "hsm":
 		return execHs(w)
+	case "sout":
+		return execSout(w)
 	case "enc":
 		h := parseReq(&toks{w: w, i: 1})
 		frame, outcome := buildListedOrder(h, nil)
@@ -1463,6 +1465,10 @@ func main() {
 	}
 	for i := 0; i < nsess; i++ {
 		g.sessionScenario(i)
+	}
+	// 6b. sent or refused: batches with every positional / named pattern through Session.ExecuteBatch
+	for i := 0; i < nsess/4; i++ {
+		g.soutScenario(i)
 	}
 	// 7. handshake tier: one real connection against a scripted peer and a scripted multi-round
 	// authenticator; the requests that are due follow from the peer's answers
